@@ -1464,7 +1464,16 @@ class C06(Prop):
                         ['D%d' % rng.below(4) for _ in range(len(text) + 3)]
                 ss = ['F%d' % rng.range(1, 8) if rng.chance(1, 4) else 'ok' for _ in range(4)] if rng.chance(1, 4) else None
                 pol = rng.choice(['std', 'ref', 'du.0', 'du.3', 'dul.4.9', 'plus.1.14', 'scr.n', 'scr.5.n.7', 'scr.2.3.4', 'plus.0.99'])
-                out.append(gen.mkcase(f, cap, text, rs, ss, pol, self.hist(rng, text, f)))
+                ops = self.hist(rng, text, f)
+                if rng.chance(1, 4):
+                    # the typical reaction to a buffer-limit error: a tight policy first, reads until one hits the
+                    # limit, then a generous policy is installed and reading goes on (the SAME record must come next)
+                    pol = rng.choice(['ref', 'dul.2.%d' % (cap + rng.below(6)), 'plus.1.%d' % (cap + rng.below(4)), 'scr.n.n'])
+                    k = gen.n_items_bound(f, text)
+                    j = rng.range(1, k)
+                    rd = lambda: rng.choice(['N', 'N', 'N', 'O', 'S0', 'E1.2'])
+                    ops = [rd() for _ in range(j)] + ['Y' + rng.choice(['std', 'du.7', 'plus.5.100000'])] + [rd() for _ in range(k + 2)]
+                out.append(gen.mkcase(f, cap, text, rs, ss, pol, ops))
             out += gen.exhaustive(f, 4 if tier == 'quick' else 6,
                                   ops_fn=lambda s: ['S0', 'N', 'I0', 'E1.2', 'N', 'I1', 'O', 'S0', 'I0'], chunks=[[]])
         return out
